@@ -30,8 +30,31 @@ def enc_attrs(a):
     return [a['enter'], a['exit'], a['onfinal'], bool(a['final']), ign_sx, a['initial']]
 
 
+# A State OBJECT of a nested state given to add_transition is registered under its bare local name (state.name):
+# the model is handed what the library does; reported as a finding (object vs name is NOT equivalent for nested states).
+NESTED_OBJ_IS_BARE_NAME = True
+
+
+def model_ts(ts):
+    """the transitions the model is given: shorthands ('*', '=') inside a nested definition unfolded by the
+    generator's own expansion, object references resolved as the library resolves them"""
+    out = []
+    for e, t in ts:
+        if 'expand' in t:
+            out += [[e, x] for x in t['expand']]
+            continue
+        if t.get('src_obj') or t.get('dst_obj'):
+            t = dict(t)
+            if t.get('src_obj') and NESTED_OBJ_IS_BARE_NAME:
+                t['src'] = t['src'][-1:]
+            if t.get('dst_obj') and t['dst'] is not None and NESTED_OBJ_IS_BARE_NAME:
+                t['dst'] = t['dst'][-1:]
+        out.append([e, t])
+    return out
+
+
 def enc_ts(ts):
-    return [[e, hsm.enc_htrans(t)] for e, t in ts]
+    return [[e, hsm.enc_htrans(t)] for e, t in model_ts(ts)]
 
 
 def _resolved(d, ign):
@@ -93,9 +116,33 @@ def real_dict(rng, d, strip_trig=None, name_leaves=True):
     """nested dict; leaves with default attributes may be plain names"""
     if name_leaves and not d['children'] and not d['events'] and is_default(d) and rng.random() < 0.5:
         return ['name', [d['name']], dict(DEFAULT_ATTRS)]
-    ts = [x for x in flat_ts(d['events']) if x[0] != strip_trig]
+    ts = fold_wild(rng, [x for x in flat_ts(d['events']) if x[0] != strip_trig])
     return ['dict', d['name'], attrs_of(d, True), rng.random() < 0.5,
             [real_dict(rng, c, strip_trig) for c in d['children']], ts]
+
+
+def fold_wild(rng, ts):
+    """a contiguous group generated as the unfolding of source='*' (dest a state, None or '=') inside a nested
+    definition is given to the library as that shorthand (half of the time); the model always gets the unfolding"""
+    out = []
+    i = 0
+    while i < len(ts):
+        w = ts[i][1].get('wild')
+        if w is None:
+            out.append(ts[i])
+            i += 1
+            continue
+        j = i
+        while j < len(ts) and ts[j][0] == ts[i][0] and ts[j][1].get('wild') == w:
+            j += 1
+        group = ts[i:j]
+        if j - i == w[1] and rng.random() < 0.6:       # the complete group: fold
+            t0 = group[0][1]
+            out.append([ts[i][0], dict(t0, src='*', dst=w[2], expand=[dict(x[1]) for x in group])])
+        else:
+            out += group
+        i = j
+    return out
 
 
 def real_names(d, prefix=(), rng=None):
@@ -169,8 +216,31 @@ def gen_case(rng, i=0):
             for _ in range(r.randint(1, 3)):
                 by.setdefault(r.randrange(ne), []).append(g.trans(inside, 0))
             d['events'] = sorted(by.items())
+        if d['children'] and r.random() < 0.3:
+            # source='*' declared inside this state: all its children (dest a state / None), or with dest '=' all
+            # its descendants (names relative to the state); unfolded here, folded back by some realisations
+            wid[0] += 1
+            e = r.randrange(ne)
+            proto = g.trans([[d['children'][0]['name']]], 0)
+            mode = r.random()
+            if mode < 0.5:
+                srcs = all_paths(d['children'], ())
+                group = [dict(proto, src=p, dst=p) for p in srcs]
+                dst = '='
+            else:
+                srcs = [[c['name']] for c in d['children']]
+                tgt = None if mode < 0.6 else r.choice(inside)
+                group = [dict(proto, src=p, dst=tgt) for p in srcs]
+                dst = tgt
+            for x in group:
+                x['wild'] = [wid[0], len(group), dst]
+            evs = dict((k, list(v)) for k, v in d['events'])
+            evs.setdefault(e, [])
+            evs[e] = evs[e] + group
+            d['events'] = sorted(evs.items())
         for c in d['children']:
             add_local(c)
+    wid = [0]
     for t in tops:
         add_local(t)
 
@@ -302,12 +372,27 @@ def gen_case(rng, i=0):
             known += [[n] + p for p in all_paths(kept)] + [[n]]
         elif it[0] == 'gtrans':
             ts = [[it[1], g.trans(known, 0)] for _ in range(r.randint(1, 3))] if known else []
+            # nested states referenced by their State object: the same in both scripts (see NESTED_OBJ_IS_BARE_NAME)
+            for _, t in ts:
+                if len(t['src']) > 1 and r.random() < 0.25:
+                    t['src_obj'] = True
+                if t['dst'] is not None and len(t['dst']) > 1 and r.random() < 0.25:
+                    t['dst_obj'] = True
             if ts:
                 for script, sr in ((A, rA), (B, rB)):
+                    # top-level states: by name or by object, per script (equivalent)
+                    mine = []
+                    for e, t in ts:
+                        t = dict(t)
+                        if len(t['src']) == 1 and sr.random() < 0.3:
+                            t['src_obj'] = True
+                        if t['dst'] is not None and len(t['dst']) == 1 and sr.random() < 0.3:
+                            t['dst_obj'] = True
+                        mine.append([e, t])
                     if sr.random() < 0.5:
-                        script.append(['trans', ts])
+                        script.append(['trans', mine])
                     else:
-                        for t in ts:
+                        for t in mine:
                             script.append(['trans', [t]])
         elif it[0] == 'remove':
             trig = r.randrange(ne)
@@ -359,12 +444,17 @@ def gen_case(rng, i=0):
             A.append(more)
             B.append(more)
     hist = [r.randrange(ne + 1) for _ in range(r.randint(2, 7))]
-    return dict(ign=r.choice([None, None, True, False]), A=A, B=B, history=hist)
+    # NestedState.separator of a subclass of the state class (every third case)
+    sep = ['.', '/', '->'][(i // 3) % 3] if i % 3 == 2 else '_'
+    return dict(ign=r.choice([None, None, True, False]), A=A, B=B, history=hist, sep=sep)
 
 
 # ====================================================================== implementation side
+SEP = {'cur': '_'}
+
+
 def sname(p):
-    return '_'.join('s%d' % n for n in p)
+    return SEP['cur'].join('s%d' % n for n in p)
 
 
 def cb(ids):
@@ -376,6 +466,9 @@ def cbid(l):
 
 
 def tdict(e, t):
+    if t['src'] == '*':
+        return dict(tdict(e, dict(t, src=[0], dst=None)), source='*',
+                    dest='=' if t['dst'] == '=' else None if t['dst'] is None else sname(t['dst']))
     return dict(trigger='e%d' % e, source=sname(t['src']), dest=None if t['dst'] is None else sname(t['dst']),
                 conditions=cb([c for c, tg in t['conds'] if tg]), unless=cb([c for c, tg in t['conds'] if not tg]),
                 before=cb(t['before']), after=cb(t['after']), prepare=cb(t['prepare']))
@@ -438,7 +531,10 @@ def build_form(HM, f, ign):
 
 
 def pth(s):
-    return [int(x[1:]) for x in s.split('_')]
+    try:
+        return [int(x[1:]) for x in s.split(SEP['cur'])]
+    except ValueError:
+        return [999]        # not a path of state names in this machine's separator
 
 
 def read_events(events):
@@ -467,8 +563,18 @@ def read_states(states):
 def run_script(case, ops):
     flat._import_transitions()
     from transitions.extensions.nesting import HierarchicalMachine as HM
+    SEP['cur'] = case.get('sep', '_')
+    HM = hsm.with_sep(HM, SEP['cur'])
     m = HM(model=None, initial=None, auto_transitions=False, ignore_invalid_triggers=case['ign'])
     model = CbModel()
+
+    def with_objs(e, t):
+        kw = tdict(e, t)
+        if t.get('src_obj'):
+            kw['source'] = m.get_state(kw['source'])
+        if t.get('dst_obj') and t['dst'] is not None:
+            kw['dest'] = m.get_state(kw['dest'])
+        return kw
     err = []
     for i, o in enumerate(ops):
         if not m.models and m.states:
@@ -483,9 +589,9 @@ def run_script(case, ops):
                     m.add_states([build_form(HM, f, case['ign']) for f in forms])
             elif o[0] == 'trans':
                 if len(o[1]) == 1 and o[1][0][0] % 2:
-                    m.add_transition(**tdict(*o[1][0]))
+                    m.add_transition(**with_objs(*o[1][0]))
                 else:
-                    m.add_transitions([tdict(e, t) for e, t in o[1]])
+                    m.add_transitions([with_objs(e, t) for e, t in o[1]])
             else:
                 kw = {}
                 if o[2]:
@@ -607,7 +713,7 @@ def stream(tag, seed, n):
     cases = fixed + [gen_case(random.Random('C13-h-%s-%d-%d' % (tag, seed, i)), i) for i in range(n)]
     mo = F.run_model(KIND, [enc(c) for c in cases])
     io = F.run_impl('c13_h', 'impl', cases)
-    dist = dict(cases=n, corpus=len(fixed), raised=0, ops=0, embed=0, embed_remap=0, names=0, dicts=0, removes=0, nested_local=0, differing_scripts=0,
+    dist = dict(cases=n, corpus=len(fixed), raised=0, custom_separator=0, wildcard_shorthands=0, state_object_refs=0, ops=0, embed=0, embed_remap=0, names=0, dicts=0, removes=0, nested_local=0, differing_scripts=0,
                 states=0)
     bad = None
     for c, m, i in zip(cases, mo, io):
@@ -624,6 +730,10 @@ def stream(tag, seed, n):
         if msg and bad is None:
             bad = dict(kind='oracle', case=c, impl_obs=ci, failing_clause='two hierarchical scripts of one description: ' + msg)
         dist['differing_scripts'] += c['A'] != c['B']
+        dist['custom_separator'] += c.get('sep', '_') != '_'
+        txt = repr(c['A']) + repr(c['B'])
+        dist['wildcard_shorthands'] += txt.count("'expand'")
+        dist['state_object_refs'] += txt.count("_obj'")
         dist['raised'] += bool(i[1][2])
         dist['states'] += len(tree_paths(i[1][0]))
         for o in c['A'] + c['B']:
